@@ -358,7 +358,9 @@ class OrderEval(Evaluator):
 
 # --------------------------------------------------------------------------------------------- order types
 POSITION_GRID = [-INF, Fraction(0), Fraction(4), Fraction(8), Fraction(12), INF]
-X_GRID = [-INF] + [Fraction(i, 2) for i in range(-4, 29)] + [INF]
+# witnesses for x: the half-integers (every parameter witness and every midpoint is one of them), and points closer to each parameter witness than the library's
+# comparison tolerance - so that a tolerance comparison in a kernel (|x - p| <= atol) has order types of its own next to the exact comparison
+X_GRID = [-INF] + sorted([Fraction(i, 2) for i in range(-4, 29)] + [Fraction(v) + d for v in (0, 4, 8, 12) for d in (Fraction(-1, 4096), Fraction(1, 4096))]) + [INF]
 POSITIVE_GRID = [Fraction(3)]
 NONZERO_GRID = [Fraction(-3, 2), Fraction(3, 2)]
 DEFAULT_GRIDS = {"position": POSITION_GRID, "positive": POSITIVE_GRID, "nonzero": NONZERO_GRID}
